@@ -109,6 +109,10 @@ def param_domain(name, kind):
             if role in name:
                 return fs
         return CALLBACKS["mapper"]
+    if kind.startswith("notset:"):
+        from reactivex.internal.utils import NotSet
+
+        return [NotSet] + list(param_domain(name, kind[7:]))
     if kind.startswith("opt:"):
         return [None] + list(param_domain(name, kind[4:]))
     if kind.startswith("const:"):
